@@ -2,6 +2,7 @@ package rest
 
 import (
 	"net/http"
+	"sync"
 	"time"
 
 	"github.com/gorilla/websocket"
@@ -24,6 +25,9 @@ const (
 
 	// Maximum message size allowed from peer.
 	maxMessageSizeV2 = 512
+
+	// Events queued for a client beyond the replayed history before it is considered too slow.
+	queueLenV2 = 100
 )
 
 // options for gorilla connection upgrader
@@ -37,6 +41,8 @@ type msgListenerV2 struct {
 	hub     *msghub.Hub                    // Global message hub.
 	c       chan *model.JSONMonitorEventV2 // Queue of incoming events.
 	mailbox string                         // Name of mailbox to monitor, "" == all mailboxes.
+	done    chan struct{}                  // Closed when the listener shuts down; c is never closed.
+	once    sync.Once                      // Guards done.
 }
 
 // newMsgListenerV2 creates a listener and registers it.  Optional mailbox parameter will restrict
@@ -44,8 +50,9 @@ type msgListenerV2 struct {
 func newMsgListenerV2(hub *msghub.Hub, mailbox string) *msgListenerV2 {
 	ml := &msgListenerV2{
 		hub:     hub,
-		c:       make(chan *model.JSONMonitorEventV2, 100),
+		c:       make(chan *model.JSONMonitorEventV2, queueLenV2+hub.HistoryLen()),
 		mailbox: mailbox,
+		done:    make(chan struct{}),
 	}
 	hub.AddListener(ml)
 	return ml
@@ -59,12 +66,10 @@ func (ml *msgListenerV2) Receive(msg event.MessageMetadata) error {
 	}
 
 	// Enqueue for websocket.
-	ml.c <- &model.JSONMonitorEventV2{
+	return ml.enqueue(&model.JSONMonitorEventV2{
 		Variant: "message-stored",
 		Header:  metadataToHeader(&msg),
-	}
-
-	return nil
+	})
 }
 
 // Delete handles a deleted message.
@@ -75,15 +80,35 @@ func (ml *msgListenerV2) Delete(mailbox string, id string) error {
 	}
 
 	// Enqueue for websocket.
-	ml.c <- &model.JSONMonitorEventV2{
+	return ml.enqueue(&model.JSONMonitorEventV2{
 		Variant: "message-deleted",
 		Identifier: &model.JSONMessageIDV2{
 			Mailbox: mailbox,
 			ID:      id,
 		},
-	}
+	})
+}
 
-	return nil
+// enqueue queues ev for the socket writer without ever blocking the hub.
+func (ml *msgListenerV2) enqueue(ev *model.JSONMonitorEventV2) error {
+	select {
+	case <-ml.done:
+		return errListenerGone
+	default:
+	}
+	select {
+	case ml.c <- ev:
+		return nil
+	default:
+		// Queue full: the client is not keeping up.  Drop it rather than stall everyone else.
+		ml.shutdown()
+		return errListenerGone
+	}
+}
+
+// shutdown tells the socket writer to finish; safe to call more than once, from any goroutine.
+func (ml *msgListenerV2) shutdown() {
+	ml.once.Do(func() { close(ml.done) })
 }
 
 // WSReader makes sure the websocket client is still connected, discards any messages from client
@@ -149,6 +174,13 @@ func (ml *msgListenerV2) WSWriter(conn *websocket.Conn) {
 				// Write failed
 				return
 			}
+		case <-ml.done:
+			// msgListener closed, exit
+			if err := conn.SetWriteDeadline(time.Now().Add(writeWaitV2)); err != nil {
+				slog.Warn().Err(err).Msg("Failed to set write deadline for close")
+			}
+			_ = conn.WriteMessage(websocket.CloseMessage, []byte{})
+			return
 		case <-ticker.C:
 			// Send ping
 			if err := conn.SetWriteDeadline(time.Now().Add(writeWaitV2)); err != nil {
@@ -165,13 +197,8 @@ func (ml *msgListenerV2) WSWriter(conn *websocket.Conn) {
 
 // Close removes the listener registration
 func (ml *msgListenerV2) Close() {
-	select {
-	case <-ml.c:
-		// Already closed
-	default:
-		ml.hub.RemoveListener(ml)
-		close(ml.c)
-	}
+	ml.shutdown()
+	ml.hub.RemoveListener(ml)
 }
 
 // MonitorAllMessagesV2 is a web handler which upgrades the connection to a websocket and notifies
